@@ -117,17 +117,23 @@ def symptom_of_exception(e):
 
 
 def check(acc, job):
-    headers, seq, seed = job
+    headers, seq, seed = job[:3]
+    blank_at = job[3] if len(job) > 3 else None
     m = X.seq_model(headers, seq, seed, cap=4)
     if m is None:
         return
     text = m.text()
+    if blank_at is not None:
+        # the same score with a blank line in it: stages and excerpts must not change (blank lines are not rows)
+        ls = text.split('\n')
+        ls.insert(min(blank_at, len(ls) - 1), '')
+        text = '\n'.join(ls)
     rows = [[c.src for c in r] for r in m.crows()]
     spine_rows = [[c.spine for c in r] for r in m.crows()]
     kern_cols = [[j for j, sp in enumerate(sr) if headers[sp] == '**kern'] for sr in spine_rows]
     has_nonkern = any(h != '**kern' for h in headers)
     kw = {'spine_types': ['**kern']} if has_nonkern else {}
-    case0 = {'text': text, 'headers': headers, 'seq': seq, 'seed': seed}
+    case0 = {'text': text, 'headers': headers, 'seq': seq, 'seed': seed, 'blank_at': blank_at}
     acc.state(digest(text))
     try:
         doc, errs = kp.loads(text)
@@ -197,7 +203,7 @@ def _job(jobs):
     for j in jobs:
         check(acc, j)
     if jobs:
-        m = X.seq_model(*jobs[len(jobs) // 2], cap=4)
+        m = X.seq_model(*jobs[len(jobs) // 2][:3], cap=4)
         if m is not None:
             acc.sample({'text': m.text(), 'ranges': 'every 1<=a<=b<=M, each labelled by the model state at its first row'}, cap=1)
     return acc
@@ -208,7 +214,8 @@ def run(ctx):
     seed = ctx.seed
     A1 = ['d', 'b', 'k', 'K', 'T', 'S0', 'J0', 'n']          # uniform signature rows: the claimed core lives here
     A2 = ['d', 'b', 'k', 'C', 'M', 'S0', 'J0']                # + partial signature rows
-    cfg = [(['**kern'], A1, 6), (['**kern', '**kern'], A1, 5), (['**kern', '**kern'], A2, 5), (['**kern', '**text'], A1, 4)]
+    A3 = ['d', 'b', 'k', 'D', 'N', 'S0']                       # + signatures on the LAST column only (the spine lacking one is on the left)
+    cfg = [(['**kern'], A1, 6), (['**kern', '**kern'], A1, 5), (['**kern', '**kern'], A2, 5), (['**kern', '**kern'], A3, 5), (['**kern', '**text'], A1, 4)]
     if not quick:
         cfg += [(['**kern'], A1 + ['C', 'z', 'c'], 6), (['**kern', '**kern', '**kern'], ['d', 'b', 'k', 'T', 'S0', 'J0'], 5),
                 (['**text', '**kern', '**kern'], ['d', 'b', 'k', 'S1', 'J1'], 5)]
@@ -222,6 +229,12 @@ def run(ctx):
             if seq.count('b') < 2:
                 continue
             jobs.append((h, list(seq), seed))
+    # blank-line variants of the documents that contain a join (every third one): line numbers and stage numbers then differ
+    extra = []
+    for k, j in enumerate(jobs):
+        if 'J0' in j[1] and k % 3 == 0:
+            extra.append((j[0], j[1], j[2], 1 + (k // 3) % 3))
+    jobs += extra
     from .. import docspace as D
     ctx.pmap(_job, [[j] for j in D.long_kern_docs(seed, reps=(3, 6))] + list(X.chunks(jobs, 120)), chunksize=1)
     ctx.extra['cases_per_class'] = {k[6:]: v for k, v in ctx.n.items() if k.startswith('class:')}
@@ -229,5 +242,5 @@ def run(ctx):
 
 def replay(case):
     acc = Acc()
-    check(acc, (case['headers'], case['seq'], case['seed']))
+    check(acc, (case['headers'], case['seq'], case['seed'], case.get('blank_at')))
     return [v for v in acc.viol if v['case'].get('from_measure') == case.get('from_measure') and v['case'].get('to_measure') == case.get('to_measure')]
